@@ -371,15 +371,129 @@ def render(repo, lean_dir=None):
     return txt.replace("GAMMAVAL_DFLT", GAMMAVAL_NEW if team_arg else GAMMAVAL_OLD)
 
 
+# ------------------------------------------------------------------------------------------------------------------
+# the argument validation (`_check_teams`, the head of `rate`): translated into a term of the deep embedding OSModel/VLang.lean
+def _vtest(t, own_cls):
+    if isinstance(t, ast.Name):
+        return '(.truthy "%s")' % t.id
+    if isinstance(t, ast.UnaryOp) and isinstance(t.op, ast.Not):
+        return "(.not %s)" % _vtest(t.operand, own_cls)
+    if isinstance(t, ast.BoolOp) and isinstance(t.op, ast.And) and len(t.values) == 2:
+        return "(.and %s %s)" % (_vtest(t.values[0], own_cls), _vtest(t.values[1], own_cls))
+    if isinstance(t, ast.Call) and ast.unparse(t.func) == "isinstance" and len(t.args) == 2 and isinstance(t.args[0], ast.Name):
+        x, ty = t.args[0].id, ast.unparse(t.args[1])
+        if ty == "list":
+            return '(.isList "%s")' % x
+        if ty in ("(int, float)", "(float, int)"):
+            return '(.isNumber "%s")' % x
+        if ty == own_cls:
+            return '(.isOwnRating "%s")' % x
+        fail(t, "isinstance against an unsupported type")
+    if isinstance(t, ast.Compare) and len(t.ops) == 1:
+        l, r = t.left, t.comparators[0]
+
+        def is_len(e):
+            return isinstance(e, ast.Call) and ast.unparse(e.func) == "len" and len(e.args) == 1 and isinstance(e.args[0], ast.Name)
+        if is_len(l) and isinstance(t.ops[0], ast.Lt) and isinstance(r, ast.Constant) and isinstance(r.value, int):
+            return '(.lenLt "%s" %d)' % (l.args[0].id, r.value)
+        if is_len(l) and is_len(r) and isinstance(t.ops[0], ast.NotEq):
+            return '(.lenNe "%s" "%s")' % (l.args[0].id, r.args[0].id)
+    fail(t, "unsupported test in validation code")
+
+
+def _vstmts(stmts, own_cls, inline):
+    out = None
+    for s_ in stmts:
+        if isinstance(s_, ast.Expr) and isinstance(s_.value, ast.Constant) and isinstance(s_.value.value, str):
+            continue
+        if isinstance(s_, ast.Pass):
+            t = ".pass"
+        elif isinstance(s_, ast.Raise):
+            exc = ast.unparse(s_.exc.func) if isinstance(s_.exc, ast.Call) else ast.unparse(s_.exc) if s_.exc is not None else ""
+            if exc not in ("TypeError", "ValueError"):
+                fail(s_, "raise of something other than TypeError/ValueError")
+            t = "(.raise .%s)" % exc
+        elif isinstance(s_, ast.If):
+            t = "(.ite %s %s %s)" % (_vtest(s_.test, own_cls), _vstmts(s_.body, own_cls, inline), _vstmts(s_.orelse, own_cls, inline))
+        elif isinstance(s_, ast.For) and isinstance(s_.target, ast.Name) and isinstance(s_.iter, ast.Name) and not s_.orelse:
+            t = '(.forIn "%s" "%s" %s)' % (s_.target.id, s_.iter.id, _vstmts(s_.body, own_cls, inline))
+        elif isinstance(s_, ast.Expr) and isinstance(s_.value, ast.Call) and ast.unparse(s_.value.func) in ("self._check_teams", "%s._check_teams" % own_cls.replace("Rating", "")) \
+                and [ast.unparse(a) for a in s_.value.args] == ["teams"] and inline is not None:
+            t = inline
+        else:
+            fail(s_, "unsupported statement in validation code")
+        out = t if out is None else "(.seq %s %s)" % (out, t)
+    return out or ".pass"
+
+
+def translate_validation(repo):
+    """-> {kind: (checkTeams term, rateHead term) | Untranslatable text}"""
+    wl = os.path.join(repo, "openskill", "models", "weng_lin")
+    res = {}
+    for kind, fname, cls in KINDS:
+        try:
+            tree = ast.parse(open(os.path.join(wl, fname)).read())
+            model_cls = None
+            for n in tree.body:
+                if isinstance(n, ast.ClassDef) and any(isinstance(m, ast.FunctionDef) and m.name == "rate" for m in n.body):
+                    model_cls = n
+            if model_cls is None:
+                raise Untranslatable("model class not found")
+            ct = [m for m in model_cls.body if isinstance(m, ast.FunctionDef) and m.name == "_check_teams"]
+            rt = [m for m in model_cls.body if isinstance(m, ast.FunctionDef) and m.name == "rate"]
+            if len(ct) != 1 or len(rt) != 1:
+                raise Untranslatable("_check_teams / rate not found")
+            if [a.arg for a in ct[0].args.args] != ["teams"]:
+                fail(ct[0], "parameters of _check_teams")
+            if [a.arg for a in rt[0].args.args][:4] != ["self", "teams", "ranks", "scores"]:
+                fail(rt[0], "parameters of rate")
+            check = _vstmts(ct[0].body, cls, None)
+            head = []
+            for s_ in rt[0].body:
+                if isinstance(s_, ast.Expr) and isinstance(s_.value, ast.Constant):
+                    continue
+                if isinstance(s_, (ast.If, ast.For, ast.Raise, ast.Pass)) or (isinstance(s_, ast.Expr) and isinstance(s_.value, ast.Call) and "_check_teams" in ast.unparse(s_.value.func)):
+                    head.append(s_)
+                else:
+                    break                    # the first statement that is not validation (the deep copy of the teams)
+            res[kind] = (check, _vstmts(head, cls, check))
+        except Untranslatable as e:
+            res[kind] = str(e)
+    return res
+
+
+def render_validation(repo):
+    tr = translate_validation(repo)
+    out = ["import OSModel\nimport OSProofs.VLangTie\n/-!\n# Generated by tools/py2lean.py from `_check_teams` and the head of `rate` of the five model files — do not edit\n\n"
+           "Each `def` is the source text of the validation code as a term of the embedded statement language `VStmt` (OSModel/VLang.lean); each\n"
+           "theorem says that running it (`exec`) gives exactly the model's `checkTeams` / `validateRate` verdict for EVERY argument triple.\n-/\n"
+           "namespace OS\nnamespace Gen\n"]
+    for kind, _f, _c in KINDS:
+        v = tr[kind]
+        if isinstance(v, str):
+            out.append("-- UNTRANSLATABLE validation_%s: %s\n" % (kind, v.replace("\n", " ")))
+            continue
+        check, head = v
+        out.append("def checkTeams_%s : VStmt :=\n  %s\n" % (kind, check))
+        out.append("def rateHead_%s : VStmt :=\n  %s\n" % (kind, head))
+        out.append("theorem checkTeams_%s_eq (t : PyVal) : exec .%s Gen.checkTeams_%s [(\"teams\", t)] = checkTeams .%s t :=\n"
+                   "  VLangTie.exec_checkTeams .%s Gen.checkTeams_%s rfl t\n" % (kind, kind, kind, kind, kind, kind))
+        out.append("theorem rateHead_%s_eq (t r s : PyVal) :\n    exec .%s Gen.rateHead_%s [(\"teams\", t), (\"ranks\", r), (\"scores\", s)] = validateRate .%s t r s :=\n"
+                   "  VLangTie.exec_rateHead .%s Gen.rateHead_%s rfl t r s\n" % (kind, kind, kind, kind, kind, kind))
+    out.append("end Gen\nend OS\n")
+    return "\n".join(out)
+
+
 if __name__ == "__main__":
     import argparse
     ap = argparse.ArgumentParser()
     ap.add_argument("--repo", default=os.environ.get("OPENSKILL_REPO", "/repo"))
     ap.add_argument("--out", default=None)
+    ap.add_argument("--validation", action="store_true", help="emit the validation tie file instead")
     a = ap.parse_args()
     here = os.path.dirname(os.path.dirname(os.path.abspath(__file__)))
     try:
-        txt = render(a.repo, os.path.join(here, "lean"))
+        txt = render_validation(a.repo) if a.validation else render(a.repo, os.path.join(here, "lean"))
     except Untranslatable as e:
         print("UNTRANSLATABLE: %s" % e)
         sys.exit(3)
